@@ -594,6 +594,26 @@ def r5_no_difference_compare(ctx) -> None:
       ('vizier._src.pyvizier.multimetric.pareto_optimal.NaiveParetoOptimalAlgorithm', 'is_pareto_optimal_against'),
       ('vizier._src.service.vizier_service.VizierServicer', 'ListOptimalTrials'),
   ]
+  # the xla kernels: whatever functions are handed to the inner jax.vmap (resolved structurally)
+  xmod = ctx.index.need_module('vizier._src.jax.xla_pareto')
+  xk = []
+  for user in ('_is_pareto_optimal_against', 'pareto_rank'):
+    if user in xmod.functions:
+      xk += [k_[0] for k_ in _xla_kernels(xmod, xmod.functions[user]).values()]
+  sites = [s_ for s_ in sites if s_[0] != 'vizier._src.jax.xla_pareto._is_dominated']
+  seen_k = set()
+  for kfi in xk:
+    if kfi.qualname in seen_k:
+      continue
+    seen_k.add(kfi.qualname)
+    hits = difference_compares(kfi.node)
+    ctx.check(not hits, 'R5', f'{kfi.qualname}: coordinates compared directly', hits[0] if hits else kfi.node,
+              'no all()/any() over `X - Y <op> 0`',
+              'dominance is decided on coordinate differences: inf - inf (and -inf - -inf) is NaN, which compares False, '
+              'so points tied at +-inf in a coordinate are never dominated / never dominate',
+              construct='difference-compare', func=kfi.qualname)
+  if not seen_k:
+    raise AnalysisError('xla_pareto: no dominance kernel resolved')
   for q, m in sites:
     if m is None:
       fi = ctx.index.need_func(q)
@@ -673,32 +693,80 @@ def r3_nsga2(ctx) -> None:
           why_extra='rank is not the count over the dominating points (sum over axis 0)')
 
 
-def r3_xla(ctx) -> None:
-  mod = ctx.index.need_module('vizier._src.jax.xla_pareto')
-  fi = mod.functions.get('_is_dominated')
-  if fi is None:
-    raise AnalysisError('xla_pareto._is_dominated not found')
+def _xla_kernel_pred(ctx, mod, fi: FuncInfo, flagval: Optional[bool]) -> List[Tuple[ast.AST, Pred]]:
+  """Dominance predicate(s) returned by a kernel `fi(y1, y2[, strict])`, with its `strict` flag (if it has one) fixed."""
   a, b = fi.params[0], fi.params[1]
   flag = next((p_ for p_ in fi.params if p_ == 'strict'), None)
-  if flag is None:
-    raise AnalysisError('_is_dominated: no `strict` parameter')
   role = lambda x: 'A' if unparse(x, 0) == a else 'B' if unparse(x, 0) == b else None
+  if flag is not None and flagval is not None:
+    g = flag_cfg(fi.node, flag, flagval)
+  else:
+    g = cfgmod.CFG(fi.node)
+  rd = flow.ReachingDefs(g)
+  live = g.reachable([g.entry], include_starts=True)
+  rets = [n for n in g.nodes if n in live and n.kind == 'stmt' and isinstance(n.ast, ast.Return) and n.ast.value is not None]
+  if not rets:
+    raise AnalysisError(f'{fi.name}: no return reachable (strict={flagval})')
+  out = []
+  for r in rets:
+    e = simplify_bool(unfold(r.ast.value, r, g, rd, (flag, flagval) if flag is not None and flagval is not None else None))
+    out.append((r.ast, parse_pred(e, role, {})))
+  return out
+
+
+def _xla_kernels(mod, user: FuncInfo) -> Dict[Optional[bool], Tuple[FuncInfo, Optional[bool]]]:
+  """The kernel handed to the inner jax.vmap of `user`, per value of user's own `strict` parameter (key None when the
+  choice does not depend on it): (kernel function, value of the kernel's strict flag or None)."""
+  res: Dict[Optional[bool], Tuple[FuncInfo, Optional[bool]]] = {}
+
+  def kernel_of(e, strict_val) -> Optional[Tuple[FuncInfo, Optional[bool]]]:
+    e = flow.resolve_local(user.node, e)
+    if isinstance(e, ast.IfExp) and unparse(e.test, 0) == 'strict' and strict_val is not None:
+      return kernel_of(e.body if strict_val else e.orelse, strict_val)
+    if isinstance(e, ast.Name) and e.id in mod.functions:
+      return mod.functions[e.id], None
+    if isinstance(e, ast.Call) and (dotted(e.func) or '').endswith('partial') and e.args and isinstance(e.args[0], ast.Name) \
+        and e.args[0].id in mod.functions:
+      fv = None
+      for k in e.keywords:
+        if k.arg == 'strict':
+          if isinstance(k.value, ast.Constant):
+            fv = bool(k.value.value)
+          elif unparse(k.value, 0) == 'strict':
+            fv = strict_val
+      return mod.functions[e.args[0].id], fv
+    return None
+  vmaps = [c for c in ast.walk(user.node) if isinstance(c, ast.Call) and (dotted(c.func) or '').endswith('vmap') and c.args]
+  inner = [c for c in vmaps if not (isinstance(c.args[0], ast.Name) and any(
+      isinstance(x, ast.Assign) and any(isinstance(t, ast.Name) and t.id == c.args[0].id for t in x.targets)
+      and isinstance(x.value, ast.Call) and (dotted(x.value.func) or '').endswith('vmap') for x in ast.walk(user.node)))]
+  for c in inner:
+    vals = (True, False) if 'strict' in user.params else (None,)
+    for sv in vals:
+      k = kernel_of(c.args[0], sv)
+      if k is not None:
+        res[sv] = k
+  return res
+
+
+def r3_xla(ctx) -> None:
+  mod = ctx.index.need_module('vizier._src.jax.xla_pareto')
+  f2 = mod.functions.get('_is_pareto_optimal_against')
+  if f2 is None:
+    raise AnalysisError('xla_pareto._is_pareto_optimal_against not found')
+  ks = _xla_kernels(mod, f2)
+  if True not in ks or False not in ks:
+    raise AnalysisError(f'xla_pareto._is_pareto_optimal_against: dominance kernel handed to jax.vmap not resolved ({sorted(map(str, ks))})')
+  fi = ks[True][0]
   for val, want in ((True, 'dominated'), (False, 'weak')):
-    g = flag_cfg(fi.node, flag, val)
-    rd = flow.ReachingDefs(g)
-    live = g.reachable([g.entry], include_starts=True)
-    rets = [n for n in g.nodes if n in live and n.kind == 'stmt' and isinstance(n.ast, ast.Return) and n.ast.value is not None]
-    if not rets:
-      raise AnalysisError(f'_is_dominated: no return reachable with strict={val}')
-    for r in rets:
-      e = simplify_bool(unfold(r.ast.value, r, g, rd, (flag, val)))
-      pred = parse_pred(e, role, {})
+    kfi, kflag = ks[val]
+    for node_, pred in _xla_kernel_pred(ctx, mod, kfi, kflag):
       if want == 'dominated':
-        _report(ctx, 'xla_pareto._is_dominated (strict)', r.ast, fi, pred, 'dominated')
+        _report(ctx, 'xla_pareto._is_dominated (strict)', node_, kfi, pred, 'dominated')
       else:
         ok = pred.table == {k: k[0] for k in DOM}
-        ctx.check(ok, 'R3', 'xla_pareto._is_dominated (non-strict)', r.ast, 'weakly dominated: all(y1 <= y2)',
-                  f'non-strict predicate has truth table {pred.table}, expected all(y1 <= y2)', construct='xla-weak', func=fi.qualname)
+        ctx.check(ok, 'R3', 'xla_pareto._is_dominated (non-strict)', node_, 'weakly dominated: all(y1 <= y2)',
+                  f'non-strict predicate has truth table {pred.table}, expected all(y1 <= y2)', construct='xla-weak', func=kfi.qualname)
   # usage: vmap(None,0) then vmap(0,None) -> [first arg index, second arg index]; any over last axis; not
   f2 = mod.functions.get('_is_pareto_optimal_against')
   txt = unparse(f2.node, 0)
@@ -717,11 +785,16 @@ def r3_xla(ctx) -> None:
     t3 = unparse(f3.node, 0)
     sums = [reduction(x) for x in ast.walk(f3.node)]
     row_sum = any(r is not None and r[0] == 'sum' and r[2] in (1, -1) for r in sums)
-    partials = [c for c in ast.walk(f3.node) if isinstance(c, ast.Call) and (dotted(c.func) or '').endswith('partial')
-                and c.args and dotted(c.args[0]) == '_is_dominated']
-    strict_ok = bool(partials) and all(
-        all(isinstance(k.value, ast.Constant) and k.value.value is True for k in c.keywords if k.arg == 'strict') and len(c.args) == 1
-        for c in partials)
+    ks3 = _xla_kernels(mod, f3)
+    strict_ok = bool(ks3)
+    for _, (kfi3, kflag3) in ks3.items():
+      flag3 = 'strict' in kfi3.params
+      fv3 = kflag3 if kflag3 is not None else (True if flag3 else None)  # an omitted flag takes the kernel's default
+      if flag3 and kflag3 is None:
+        dflt = dict(zip(reversed([a_.arg for a_ in kfi3.node.args.args]), reversed(kfi3.node.args.defaults))).get('strict')
+        fv3 = bool(dflt.value) if isinstance(dflt, ast.Constant) else None
+      for _, pred3 in _xla_kernel_pred(ctx, mod, kfi3, fv3):
+        strict_ok = strict_ok and pred3.is_dom()
     rets3 = [r for r in ast.walk(f3.node) if isinstance(r, ast.Return) and r.value is not None]
     plain = all(reduction(flow.resolve_local(f3.node, r.value)) is not None for r in rets3)
     ctx.check(strict_ok and plain, 'R3', 'xla_pareto.pareto_rank counts strict dominance', f3.node,
